@@ -1,7 +1,9 @@
 (* C03 — Advertised shape, dtype and chunks are what the graph produces.
    Per-axis core: the chunks a basic slice advertises are exactly the lengths of the
-   pieces its graph produces (C13), and every rechunk plan step is a layout of the shape (C15). *)
-From DA Require Import PyBase Slicing Slice1dFacts Rechunk RechunkFacts.
+   pieces its graph produces (C13), and every rechunk plan step is a layout of the shape (C15).
+   Expression level: every modelled rewrite keeps the advertised shape, and the rechunk
+   rewrites keep the advertised chunks. *)
+From DA Require Import PyBase Slicing Slice1dFacts Rechunk RechunkFacts NdArray NdArrayFacts ExprRules ExprRulesFacts.
 Open Scope Z_scope.
 
 Theorem C03_slice_chunks_are_piece_lengths :
@@ -18,5 +20,49 @@ Theorem C03_rechunk_blocks_have_new_sizes :
     concat (map (piece_positions old) pieces) = seqZ (cum new j) (cum new (S j)).
 Proof. exact intersect_1d_spec. Qed.
 
+(* the advertised shape of an expression is the shape of the array it denotes *)
+Theorem C03_advertised_shape_is_denoted_shape :
+  forall (V : Type) leafv constv fop inj e, shape (den V leafv constv fop inj e) = eshape e.
+Proof. exact den_shape. Qed.
+
+(* every modelled rewrite keeps the advertised shape *)
+Theorem C03_rewrites_keep_advertised_shape :
+  forall before after, wfb before = true ->
+  (rule_slice_down before = Some after \/ rule_slice_elemwise before = Some after \/
+   rule_slice_transpose before = Some after \/ rule_slice_arange before = Some after \/
+   rule_transpose_transpose before = Some after \/ rule_transpose_identity before = Some after \/
+   rule_rechunk_rechunk before = Some after \/ rule_rechunk_noop before = Some after) ->
+  eshape after = eshape before.
+Proof.
+  intros before after Hw H.
+  set (D := den unit (fun _ _ => tt) (fun _ => tt) (fun _ _ => tt) (fun _ => tt)).
+  assert (aeq (D before) (D after)) as [Hs _].
+  { destruct H as [H|[H|[H|[H|[H|[H|[H|H]]]]]]].
+    - apply (rule_slice_down_sound _ _ _ _ _ _ _ H Hw).
+    - apply (rule_slice_elemwise_sound _ _ _ _ _ _ _ H Hw).
+    - apply (rule_slice_transpose_sound _ _ _ _ _ _ _ H Hw).
+    - apply (rule_slice_arange_sound _ _ _ _ _ _ _ H Hw).
+    - apply (rule_transpose_transpose_sound _ _ _ _ _ _ _ H Hw).
+    - apply (rule_transpose_identity_sound _ _ _ _ _ _ _ H Hw).
+    - apply (rule_rechunk_rechunk_sound _ _ _ _ _ _ _ H).
+    - apply (rule_rechunk_noop_sound _ _ _ _ _ _ _ H). }
+  unfold D in Hs. rewrite !den_shape in Hs. symmetry. exact Hs.
+Qed.
+
+(* the rechunk rewrites keep the advertised chunks (the model declines the one case where the
+   implementation does not: an inner balance=True re-balances the outer target, finding C02-A) *)
+Theorem C03_rechunk_rewrites_keep_advertised_chunks :
+  forall before after,
+  (rule_rechunk_rechunk before = Some after \/ rule_rechunk_noop before = Some after) ->
+  echunks after = echunks before.
+Proof.
+  intros before after [H|H].
+  - apply (rule_rechunk_rechunk_sound unit (fun _ _ => tt) (fun _ => tt) (fun _ _ => tt) (fun _ => tt) _ _ H).
+  - apply (rule_rechunk_noop_sound unit (fun _ _ => tt) (fun _ => tt) (fun _ _ => tt) (fun _ => tt) _ _ H).
+Qed.
+
 Print Assumptions C03_slice_chunks_are_piece_lengths.
 Print Assumptions C03_rechunk_blocks_have_new_sizes.
+Print Assumptions C03_advertised_shape_is_denoted_shape.
+Print Assumptions C03_rewrites_keep_advertised_shape.
+Print Assumptions C03_rechunk_rewrites_keep_advertised_chunks.
